@@ -15,7 +15,7 @@ pub fn def() -> PropDef {
         predicate,
         nontrivial,
         functional: false,
-        rule: "grammar-generated programs, well-typed and ill-typed (30% of sub-expressions ignore the requested type), depth <= 8, over every operator, macro, built-in and literal form, against contexts with i64/u64 extremes, NaN/inf/-0.0, empty and non-ASCII strings and bytes, nested lists and maps, chrono-limit durations and timestamps, function values and host functions of arity 0-9; plus all ordered pairs of a ~70-value boundary set under each operator implementation called directly; non-trivial = contains an operator, call or macro (programs) / always (direct pairs); distinct = distinct case text",
+        rule: "grammar-generated programs, well-typed and ill-typed (30% of sub-expressions ignore the requested type), depth <= 8, over every operator, macro, built-in and literal form, against contexts with i64/u64 extremes, NaN/inf/-0.0, empty and non-ASCII strings and bytes, nested lists and maps, chrono-limit durations and timestamps, function values and host functions of arity 0-9; conversion texts either side of every representation limit (durations in every unit, timestamps at the year limits incl. leap-second notation - the latter checked for panics only, the model has no leap seconds -, int/uint/double texts); plus all ordered pairs of a ~70-value boundary set under each operator implementation called directly; non-trivial = contains an operator, call or macro (programs) / always (direct pairs); distinct = distinct case text",
         post: super::no_post,
         exhaustive_note: "boundary pairs under the direct operators are enumerated completely; programs are a random sample",
     }
@@ -182,7 +182,9 @@ pub fn generate(tier: Tier, rng: &mut Rng) -> Vec<Case> {
     }
     for src in &texts {
         if let Some(mut c) = eval_case_from_src(&default, src) {
-            c.tags = vec!["limit-text"];
+            // second 60 (leap-second notation) is accepted by chrono and kept in a representation
+            // of its own; the model has no leap seconds, so these inputs are panic probes only
+            c.tags = if src.contains(":60") { vec!["limit-text", "no-model"] } else { vec!["limit-text"] };
             out.push(c);
         }
     }
